@@ -13,7 +13,7 @@ RULE = ("metric cases: WeightedLevenshtein(ins,del,sub) / Levenshtein().calc_cdi
         "order-revealing callables f(a)*31+g(b), float-valued callables with dtype=float, default metric, and keyword forwarding "
         "(the callable records its kwargs). distinct_nontrivial = distinct cases with at least two different distances.")
 ASSUMPTIONS = ["the functional helpers' documented uint8 default is respected: distances > 255 are only requested with an explicit wider dtype",
-               "weights are positive integers"]
+               "weights are positive integers; totals beyond 2^24 (weights of 10^6 and more) are compared at the single-precision resolution of the returned matrices"]
 EXHAUSTIVE = {"quick": ["all strings len<=3 over AB as A and B, 6 weight triples", "pdist layout for every m in 2..9"],
               "thorough": ["all strings len<=4 over AB as A and B, 14 weight triples", "all strings len<=3 over ABC, 6 weight triples", "pdist layout for every m in 2..14"]}
 REQUIRE = {"long_one_sided_calls": 22, "cdist_cells_checked": 2328, "pdist_entries_checked": 500, "asymmetric_weight_cases": 20, "sub_gt_ins_plus_del_cases": 5,
@@ -141,6 +141,29 @@ def k_long(ctx, a, b, w):
         ctx.violation("metric:long:pdist", "pdist of two long strings is wrong", pv.describe(), e)
 
 
+def k_hugeweights(ctx, A, B, w):
+    """Weights of 10^6 .. 10^9: the result matrix is single precision, so the comparison is made at float32 resolution
+    (relative 2^-22); a wrapped or truncated total is off by orders of magnitude."""
+    import numpy as np
+    ins, dele, sub = w
+    m = _metric(ins, dele, sub, False)
+    ctx.count("huge_weight_cases")
+    ctx.nontriv(["huge", A, B, w])
+    ctx.sample("hugeweights", {"A": A[:4], "B": B[:4], "weights": w})
+    out = ctx.call(m.calc_cdist_matrix, list(A), list(B))
+    if not out.ok:
+        ctx.violation("WeightedLevenshtein:cdist:huge-weights:raised", "calc_cdist_matrix raised", out.describe(), None)
+        return
+    M = np.asarray(out.value, dtype=float)
+    for i, x in enumerate(A):
+        for j, y in enumerate(B):
+            e = O.wlev(x, y, ins, dele, sub)
+            if abs(M[i, j] - e) > e * 2.0 ** -22:
+                ctx.violation("WeightedLevenshtein:cdist:huge-weights:wrong-distance", f"[{i},{j}] {x!r}->{y!r}: got {M[i, j]!r}, minimum edit weight is {e} (beyond single-precision rounding)",
+                              M, None, {"weights": w})
+                return
+
+
 CODE = {}
 
 
@@ -218,7 +241,7 @@ def k_fn(ctx, X, B=None, mode="order", kw=None):
                           seen_kwargs[:3], kw)
 
 
-KINDS = {"metric": k_metric, "long": k_long, "fn": k_fn}
+KINDS = {"metric": k_metric, "long": k_long, "fn": k_fn, "hugeweights": k_hugeweights}
 
 
 def generate(tier, seed):
@@ -257,6 +280,12 @@ def generate(tier, seed):
     for i in range(12 if thorough else 3):
         X = [G.rand_string(rng, "ACD", 0, 5) for _ in range(rng.randint(101, 140))]
         yield "metric", {"A": X, "B": X[:4], "w": [[2, 5, 3], [1, 3, 1], [1, 1, 1]][i % 3], "plain": i % 3 == 2}, True
+    # strings that differ by a trailing NUL or control character only (plain lists: no fixed-width array in the harness)
+    yield "metric", {"A": G.NUL_STRINGS, "B": G.NUL_STRINGS + ["A\n", "A\x00B"], "w": [1, 1, 1], "plain": True}, True
+    yield "metric", {"A": G.NUL_STRINGS, "B": G.NUL_STRINGS + ["A\n", "A\x00B"], "w": [2, 3, 4]}, True
+    # very large weights (totals beyond 2^32)
+    for w in ([10 ** 9, 10 ** 9, 1], [2 ** 24, 2 ** 24, 2 ** 24], [10 ** 7, 3 * 10 ** 7, 5 * 10 ** 7], [1, 1, 10 ** 9]):
+        yield "hugeweights", {"A": ["CASSLGQGNTEAFF", "", "A" * 256, "CAF"], "B": ["CAF", "A" * 256, "CASSLGQGNTEAFF", "C" * 300], "w": w}, True
     # long strings (no wrap-around): lengths up to 400, completely different / nearly identical
     lens = [(300, 300), (400, 400), (256, 255), (400, 0), (0, 300), (257, 300), (130, 400), (399, 400)]
     for i, (la, lb) in enumerate(lens if not thorough else lens * 4):
